@@ -45,6 +45,11 @@ SRC_TIE = {
            "(tools/cxx2heap.py) and proved to implement the model's alloc / dealloc / clear_cache / clear_all on the heap representation, with exactly the model's "
            "calls on the underlying allocator and the model's one-time warning.",
     "C20": " SOURCE TIE BY PROOF: TeamCityTestOutput::printEscaped is regenerated from the source on every run (tools/cxx2gal.py) and proved to emit exactly the "
-           "model's tc_escape of its argument.",
+           "model's tc_escape of its argument; the five message writers (printCurrentGroupStarted/Ended, printCurrentTestStarted/Ended, printFailure) and "
+           "TestFailure::isOutsideTestFile / isInHelperFunction are regenerated too (tools/cxx2heap.py; print / printEscaped as ghost events carrying the "
+           "literal text or the text's identity, willRun() as a ghost stream) and proved to write, rendered to bytes, exactly the items of the model's "
+           "tc_step for every state and event, with the object's currtest_/currGroup_/groupOpen_ following the model's state (step_sim, "
+           "teamcity_run_render_tc: a whole run renders render_tc). Texts are opaque identities there (equal file names must have equal identities: "
+           "hypothesis, counterexample kept); print() to the base class and the registry's event order stay model + correspondence.",
 }
 TECH = "; selected source functions translated from clang's AST to Gallina on every run and proved equal to / to implement the model (see level text)"
